@@ -190,6 +190,32 @@ def run(prog, ctx):
                     "window-zone": "the window zone of %s does not store old | 1 << (col - offset) exactly for offset <= col < offset + 8" % f.id}
             for k in ("early-zone", "late-zone", "window-zone"):
                 res.tri(False if k in bad else (None if unknown else True), "C05.N", "C05.N|%s|%s" % (f.id, k), msgs[k] + (": " + bad[k] if k in bad else ""), f.id)
+    # ordering: the HIP registers are advanced for a new coupon before the window can move (move_window recomputes KXP from the
+    # matrix that already contains the coupon; advancing afterwards subtracts the coupon's probability twice)
+    cs_fields = [x[0] for v in prog.adts.get(S, {}).get("variants", []) for x in v.get("fields", [])]
+    if "hip_est_accum" in cs_fields and "window_offset" in cs_fields:
+        _e = {}
+
+        def eff(callee, fld):
+            if not callee or callee not in prog.fns:
+                return False
+            if (callee, fld) not in _e:
+                _e[(callee, fld)] = any(True for g_ in C.reach_from(prog, [callee]) if g_.owner == S for _ in sym.field_stores(prog, adt=S, field=fld, fns=[g_]))
+            return _e[(callee, fld)]
+        for f in reach:
+            if f.owner != S:
+                continue
+            sf = Sym(prog, f, ifconv=False)
+            hips = [b for b, st in f.calls() if eff(st.get("callee"), "hip_est_accum") and not eff(st.get("callee"), "window_offset")]
+            moves = [b for b, st in f.calls() if eff(st.get("callee"), "window_offset")]
+            for hb in hips:
+                if not moves:
+                    continue
+                res.obligations += 1
+                if any(mb != hb and sf._reaches(mb, hb) for mb in moves):
+                    res.violate("C05.N", "C05.N|%s|hip-after-move" % f.id, "%s can advance the HIP registers after the window has moved: the KXP refresh already accounted for the new coupon" % f.id, f.id, f.blocks[hb].term[1].get("span"))
+                else:
+                    res.discharged += 1
     res.rule("C05.N", n_n, 2, "coupon count increments")
 
     # ---------------- C05.F thresholds
